@@ -120,7 +120,7 @@ def gen_matrix(rng, T, S, kind):
 
 def cases(run: Run):
     rng = run.rng
-    out = list(corpus(PID))
+    out = [dec_case(c) for c in corpus(PID)]  # stored as JSON: rationals as strings
     # exhaustive small scope: all shapes up to 2x2 (quick) with rewards in {-1,0,1,2} and every mask is too many at 3x3;
     # quick: exhaustive 1x1..2x2; sampled 3x3; thorough: exhaustive up to 2x3/3x2, sampled 3x3, 4x4
     vals = [-1, 0, 1, 2]
